@@ -10,6 +10,7 @@ CONSTANTS
   OSeqs = {1}
   MinDeposit = 0
   BidMinDeposit = 0
+  OrderMaxBids = 20
   DepositChoices = {0, 1, 3, 4}
   AmountChoices = {2}
   RateChoices = {1, 2}
